@@ -80,6 +80,16 @@ public:
     return true;
   }
 
+  // innermost macro whose expansion produced the *start* of this node
+  std::string immediateMacroOf(SourceLocation L) {
+    if (!L.isMacroID()) return "";
+    SourceLocation Cur = L;
+    while (Cur.isMacroID() && SM.isMacroArgExpansion(Cur))
+      Cur = SM.getImmediateSpellingLoc(Cur);
+    if (!Cur.isMacroID()) return "";
+    return Lexer::getImmediateMacroName(Cur, SM, Ctx.getLangOpts()).str();
+  }
+
   // outermost macro whose expansion produced the *start* of this node
   std::string macroOf(SourceLocation L) {
     if (!L.isMacroID()) return "";
@@ -176,7 +186,11 @@ public:
       J.attribute("k", S->getStmtClassName());
       J.attribute("l", lineOf(S->getBeginLoc()));
       std::string M = macroOf(S->getBeginLoc());
-      if (!M.empty()) J.attribute("mac", M);
+      if (!M.empty()) {
+        J.attribute("mac", M);
+        std::string IM = immediateMacroOf(S->getBeginLoc());
+        if (!IM.empty() && IM != M) J.attribute("imac", IM);
+      }
       if (const auto *E = dyn_cast<Expr>(S)) emitExprAttrs(E);
 
       bool ChildrenDone = false;
